@@ -125,6 +125,9 @@ pub fn check(c: &Case, stats: &mut Stats) -> CheckResult {
     if members.is_empty() {
         stats.label("empty-set");
     }
+    if members.len() > 30 {
+        stats.label("members>30");
+    }
     if anc_pair {
         stats.label("ancestor-and-descendant-members");
     }
@@ -152,13 +155,18 @@ pub fn check(c: &Case, stats: &mut Stats) -> CheckResult {
 fn strategy(tier: Tier) -> BoxedStrategy<Case> {
     let max = if tier == Tier::Quick { 18 } else { 50 };
     let cfg = GenCfg::small().terms(2, max).recs(6).standard().with_flags(false).names(NameMode::Plain);
-    (gen::facts(cfg), vec(any::<u16>(), 0..12))
-        .prop_map(|(facts, picks)| {
-            let ids: Vec<u32> = facts.terms.iter().map(|t| t.id).collect();
-            let members = picks.iter().map(|p| ids[pick(*p, ids.len())]).collect();
-            Case { facts, members }
-        })
-        .boxed()
+    // large sets: more members than an id group stores inline (30)
+    let big = GenCfg::small().terms(44, 72).recs(3).standard().with_flags(false).names(NameMode::Plain);
+    let mk = |(facts, picks): (Facts, Vec<u16>)| {
+        let ids: Vec<u32> = facts.terms.iter().map(|t| t.id).collect();
+        let members = picks.iter().map(|p| ids[pick(*p, ids.len())]).collect();
+        Case { facts, members }
+    };
+    prop_oneof![
+        12 => (gen::facts(cfg), vec(any::<u16>(), 0..12)).prop_map(mk),
+        1 => (gen::facts(big), vec(any::<u16>(), 30..90)).prop_map(mk),
+    ]
+    .boxed()
 }
 
 impl Property for C13 {
@@ -166,7 +174,7 @@ impl Property for C13 {
         "C13"
     }
     fn rule(&self) -> String {
-        "Generated: ontologies (own v3 bytes, so categories and modifier roots are defined) with obsolete terms, replacements pointing to existing terms (members, non-members, the term itself), modifier branches and records of all kinds; member sets of 0-12 terms drawn with repetition (empty sets, ancestors together with descendants). Oracle on the reference model: child_nodes = members without a member among their descendants; without_modifier/remove_modifier drop exactly members that are or descend from a modifier root; without_obsolete/remove_obsolete drop exactly flagged members; with_replaced_obsolete/replace_obsolete map exactly the members naming a replacement (collisions shrink the set); gene/omim/orpha id sets = unions over members; categories() = per-category member counts; information_content gene/omim = -ln(|union|/N) (0 rule; 1e-5); each in-place method equals its copying twin; len/is_empty/contains/get/iter/Extend agree with the member set; copying methods leave the set untouched. evaluations = set operations. Non-trivial = set contains an ancestor/descendant pair, an obsolete and a replaced member; distinct by hash of the case.".into()
+        "Generated: ontologies (own v3 bytes, so categories and modifier roots are defined) with obsolete terms, replacements pointing to existing terms (members, non-members, the term itself), modifier branches and records of all kinds; member sets of 0-12 terms drawn with repetition (empty sets, ancestors together with descendants), one case in 13 with 44-72 terms and 30-90 picks (more than the 30 members an id group stores inline). Oracle on the reference model: child_nodes = members without a member among their descendants; without_modifier/remove_modifier drop exactly members that are or descend from a modifier root; without_obsolete/remove_obsolete drop exactly flagged members; with_replaced_obsolete/replace_obsolete map exactly the members naming a replacement (collisions shrink the set); gene/omim/orpha id sets = unions over members; categories() = per-category member counts; information_content gene/omim = -ln(|union|/N) (0 rule; 1e-5); each in-place method equals its copying twin; len/is_empty/contains/get/iter/Extend agree with the member set; copying methods leave the set untouched. evaluations = set operations. Non-trivial = set contains an ancestor/descendant pair, an obsolete and a replaced member; distinct by hash of the case.".into()
     }
     fn assumptions(&self) -> Vec<String> {
         vec!["replacements name existing terms (a set holding an id that is not a term is outside the documented domain of HpoSet)".into()]
@@ -178,7 +186,7 @@ impl Property for C13 {
         }
     }
     fn required_labels(&self, _tier: Tier) -> Vec<&'static str> {
-        vec!["nontrivial", "empty-set", "ancestor-and-descendant-members", "replacement-collides-with-member", "modifier-member", "modifier-root-member", "replaced-but-not-obsolete-member"]
+        vec!["nontrivial", "members>30", "empty-set", "ancestor-and-descendant-members", "replacement-collides-with-member", "modifier-member", "modifier-root-member", "replaced-but-not-obsolete-member"]
     }
     fn run_generated(&self, tier: Tier, seed: u64, n: u64, stats: &mut Stats) -> Option<(Value, Failure)> {
         run_typed(strategy(tier), seed, n, stats, check)
